@@ -58,6 +58,9 @@ def run_case(cs, ctx):
     if other is not None and len(hist) >= 3:
         hist.insert(rng.randint(2, len(hist) - 1), 'other_object_solves')
         ctx.cnt('histories_with_a_second_object_on_the_same_file')
+    if rng.random() < 0.15 and len(hist) >= 3:
+        hist.insert(rng.randint(1, len(hist) - 1), rng.choice(['file_replaced', 'file_removed']))
+        ctx.cnt('histories_in_which_the_instance_file_changes')
     case = {'cs': cs, 'argv': ['-f', '<file>'] + argv[2:], 'file': text, 'history': hist,
             'other_object_argv': None if other is None else ['-f', '<file>'] + other[2:]}
     ctx.cnt('histories')
@@ -149,9 +152,24 @@ def run_case(cs, ctx):
             ctx.cnt('histories_with_time_limit_and_time_jumps')
         for call in hist:
             ctx.cnt('calls')
+            if call in ('file_replaced', 'file_removed'):
+                # the Solver object holds the instance it read when it was constructed
+                import os as _os
+                try:
+                    if call == 'file_removed':
+                        _os.remove(path)
+                    else:
+                        with open(path, 'w') as fh:
+                            fh.write(sp.render(sp.make_spec(random.Random(cs ^ 0x3131)), second_side=True))
+                except OSError:
+                    pass
+                continue
             if call == 'other_object_solves':
                 try:
                     TAP.enabled = False
+                    import os as _os
+                    if not _os.path.exists(path):
+                        continue
                     b = Solver(list(other))
                     b.solve()
                     b.get_results()
